@@ -54,6 +54,10 @@ def cases(E):
                     continue  # the emitter code is shared; all mnemonics x LoROM primary/RAM, bra x everything
                 cs.append(Case(H + "branch_contract", f"{mn},{rom_type},run address in entry {ident}", shape(mn, bus_attr, rom_type, ident),
                                target=FUNCTIONS[:3]))
+    # which run addresses are ROM (branch encoded) and which are RAM (refused) is read off the LIVE built-in buses entry by entry above; that those
+    # entries cover exactly the textbook LoROM / HiROM bank sets (no RAM mirror over ROM banks, no ROM bank missing) is C04's live-bus contract
+    from vf.props import C04 as c04
+    cs += c04.live_bus_cases(E)
     return cs
 
 
